@@ -209,6 +209,13 @@ func c17Once(c *Ctx, get *ssa.Function) {
 					if k, isK := core.ConstInt(mk.Size); isK && k == 1 {
 						okMake = true
 					}
+					// sends on the channel value itself, before it is stored
+					for _, rr := range core.Refs(mk) {
+						if sd, ok := rr.(*ssa.Send); ok && sd.Chan == ssa.Value(mk) {
+							nSend++
+							sendInstr = sd
+						}
+					}
 				}
 			}
 			if ld, ok := r.(*ssa.UnOp); ok && ld.Op == token.MUL {
